@@ -138,7 +138,7 @@ def run(prog, rep, tier='quick', config='default'):
     # ------------------------------------------------------------------ R15d: the window scans handle splits
     scan = None
     for cand in prog.product_fns():
-        if cand.name.startswith('portfolio::bookkeeping::superficial_loss::') and cand.kind in ('Fn', 'AssocFn') and \
+        if cand.name.startswith('portfolio::bookkeeping::') and cand.kind in ('Fn', 'AssocFn') and \
                 len([x for x in cand.calls if x.short == 'insert' and
                      re.search(r'HashMap<&portfolio::model::affiliate::Affiliate, util::decimal::ConstrainedDecimal', cand.ty.get(x.arg_local(0), ''))]) >= 2:
             scan = cand
